@@ -18,6 +18,15 @@ func init() {
 }
 
 func AsmYCbCrToGray(c *image.YCbCr, pixels []float32) {
+	// The assembly walks x from 0 to Rect.Max.X in steps of 8 and indexes luma,
+	// chroma and the destination with the same coordinates and the luma stride:
+	// that is only right for a 4:4:4 image at the origin whose rows are packed.
+	w, h := c.Rect.Dx(), c.Rect.Dy()
+	if c.Rect.Min.X != 0 || c.Rect.Min.Y != 0 || c.SubsampleRatio != image.YCbCrSubsampleRatio444 ||
+		c.YStride != w || c.CStride != w || w%8 != 0 || len(pixels) < w*h {
+		yCbCrToGrayAlt(c, pixels)
+		return
+	}
 	asmYCbCrToGray(pixels,
 		c.Rect.Min.X, c.Rect.Min.Y, c.Rect.Max.X, c.Rect.Max.Y,
 		c.Y, c.Cb, c.Cr, c.YStride, c.CStride)
